@@ -97,18 +97,22 @@ class Gen:
         return ('!', self.rng.randrange(self.nk) if k is None else k, m)
 
     def filt(self, hint=None):
-        """a filter: distinct kinds in random order ([] = catch everything).  No kind twice: a Tuple
-        holding the same pointer twice never finishes iterating (finding F3 of C11), and the
-        property speaks of filter sets"""
+        """a filter: kinds in random order ([] = catch everything); now and then a kind twice (a Tuple
+        holding the same pointer twice never finished iterating — second repaired defect; only the
+        generated-source harness passes the list as written, the interpreter uses the set)"""
         rng = self.rng
         r = rng.random()
         if r < .25: return []
-        if hint is not None and r < .55: return [hint]
-        others = [k for k in range(self.nk) if k != hint]
-        if hint is not None and r < .75 and others:            # everything but the hint
-            return rng.sample(others, rng.randrange(1, len(others) + 1))
-        n = min(self.nk, rng.choice([1, 1, 2, 2, 3]))
-        return rng.sample(range(self.nk), n)
+        if hint is not None and r < .55: fs = [hint]
+        else:
+            others = [k for k in range(self.nk) if k != hint]
+            if hint is not None and r < .75 and others:            # everything but the hint
+                fs = rng.sample(others, rng.randrange(1, len(others) + 1))
+            else:
+                fs = rng.sample(range(self.nk), min(self.nk, rng.choice([1, 1, 2, 2, 3])))
+        if rng.random() < .12:
+            fs.insert(rng.randrange(len(fs) + 1), rng.choice(fs))
+        return fs
 
     def tree(self, budget, hint=None):
         """general recursive generator, budget = node count"""
@@ -544,6 +548,11 @@ CORPUS = [
     # try inside a handler, depth inside handler, sequences
     '; T !1,1 T1 ; t1 !1,2 t2 ; t3 T . t4',
     '; ; T !0,1 t1 T !1,2 t2 T0 !0,12345 t3',
+    # a filter naming an object twice (fixed: foreach over the filter Tuple never finished); the
+    # generated-source harness passes the list as written
+    'T00 !1,1 .',
+    '; T T101 !2,1 t1 t2 t3',
+    'T0 T11 !0,3 t1 t2',
     # dynamic nesting
     'C T C !2,3 C t1',
     'T01 C T23 C !1,3 t1 t2',
